@@ -13,10 +13,14 @@ if os.path.exists(nap):
     na_reasons = json.load(open(nap))
 claimed = [p for p in props if p in cfgs and not cfgs[p].get("unclaimed")]
 hooks_commits = []
-hp = os.path.join(ROOT, "props", "hooks.json")
+import subprocess
 hooks = {"source_commits": []}
-if os.path.exists(hp):
-    hooks = json.load(open(hp))
+try:
+    out = subprocess.run(["git", "-C", os.environ.get("VERIF_REPO", "/repo"), "log", "--format=%H %s"],
+                         capture_output=True, text=True).stdout
+    hooks["source_commits"] = [l.split()[0] for l in out.splitlines() if " verif hook:" in l][::-1]
+except Exception:
+    pass
 m = {
  "version": 1,
  "setup_cmd": "./setup.sh",
